@@ -87,8 +87,15 @@ class Gen:
         if self.burst > 0:
             x = 0.0
             self.burst -= 1
+        elif getattr(self, 'after_burst_remove', False) and N > 1:
+            self.after_burst_remove = False
+            if case['mode'] != 'tree':
+                return dict(op='remove_index', i=r.randrange(N), keep_sorted=1, valid=True)
         elif r.random() < 0.01:
             self.burst = r.choice([30, 130, 260])       # cross the 128/256/512 growth boundaries
+        elif r.random() < 0.02 and N % 128 != 0 and N < 400:
+            self.burst = 128 - N % 128                   # stop exactly ON a boundary: the array is full when the next removal comes
+            self.after_burst_remove = True
         if x < 0.34 or (N == 0 and x < 0.8):
             op = dict(op='add', id=self.next_id, hash=self.new_hash())
             self.next_id += 1
@@ -120,8 +127,12 @@ class Gen:
             else:
                 h = r.getrandbits(32)
             return dict(op='lookup', hash=h)
-        if x < 0.95:
+        if x < 0.945:
             return dict(op='remove_all')
+        if x < 0.96 and N > 0:
+            # the history continues on a copy / a restored snapshot: storage is then allocated for exactly N particles, so the very
+            # next operation works on a full array (growth on add, no spare slot behind the last particle on removal)
+            return dict(op='continue_on', how=r.choice(['copy', 'stream']), then_fill=False)
         if x < 0.97 and case['mode'] in ('mercurius', 'trace', 'plain') and 2 <= N <= 40 and m.N_active_known and m.N_active in (-1, N):
             return dict(op='steps', n=r.choice([1, 2]))
         if N > 0:
@@ -390,6 +401,14 @@ def run_case(case):
             sim.N_active = op['v']
             m.N_active = op['v']
             m.N_active_known = True
+        elif o == 'continue_on':
+            if op['how'] == 'copy':
+                sim2 = sim.copy()
+            else:
+                sim2 = rebound.Simulation(rt.save_bytes(sim))
+            sim = sim2
+            counters['continued_on_copy_or_snapshot'] = counters.get('continued_on_copy_or_snapshot', 0) + 1
+            probes = [p[1] for p in m.ps][:3]
         elif o == 'remove_all':
             if api == 'py':
                 del sim.particles
